@@ -13,7 +13,7 @@
    GATE: C15_gate (kernel-abstract).  The model of fit is tied to the
    implementation on every run by RunICVI.ifcheck. *)
 From Coq Require Import List Bool Arith Reals.
-From ART Require Import Num NumR Vec Search Kernel BaseArt ICVI ICVI_R VecR ICVI_full ICVI_switch ICVIFuzzy ICVI_fit CVI_gate.
+From ART Require Import Num NumR Vec Search Kernel BaseArt ICVI ICVI_R VecR ICVI_full ICVI_switch ICVIFuzzy ICVI_fit CVI_gate ICVI_remove ICVI_remove_inv.
 Import ListNotations.
 Open Scope R_scope.
 
@@ -106,14 +106,28 @@ Proof. exact icvi_gate. Qed.
 Theorem C15_cviart_gate_strict :
   forall (N : Num) ncat labels i c (lb : bool) (old new : N),
     cvi_match ncat labels i c lb old new = true -> (2 <= ncat)%nat ->
-    index_defined labels = true -> index_defined (set_at i c labels) = true ->
-    (if lb then nltb new old else nltb old new) = true.
+    index_defined labels = true ->
+    index_defined (set_at i c labels) = true /\ (if lb then nltb new old else nltb old new) = true.
 Proof. exact @gate_strict. Qed.
+Theorem C15_cviart_gate_refuses_losing_the_index :
+  forall (N : Num) ncat labels i c (lb : bool) (old new : N),
+    (2 <= ncat)%nat -> index_defined labels = true -> index_defined (set_at i c labels) = false ->
+    cvi_match ncat labels i c lb old new = false.
+Proof. exact @gate_refuses_losing_the_index. Qed.
 Theorem C15_cviart_gate_refuses_no_improvement :
   forall (N : Num) ncat labels i c (lb : bool) (old new : N),
     (2 <= ncat)%nat -> index_defined labels = true -> index_defined (set_at i c labels) = true ->
     (if lb then nltb new old else nltb old new) = false -> cvi_match ncat labels i c lb old new = false.
 Proof. exact @gate_refuses_no_improvement. Qed.
+(* remove_sample (a public operation of the same object; its mean update was repaired by /repo 16fa704): the tracked
+   value after remove_sample + update is the batch index of the data that remain *)
+Theorem C15_remove_sample_tracks_the_batch_index :
+  forall d (s : @ch RN) (D : list (list R * nat)) (j : nat) (x : list R) (l : nat),
+    Struct d s D -> nth_error D j = Some (x, l) -> (2 <= length (members D l))%nat ->
+    exists p D', @remove_sample RN s x l = Some p /\ Permutation.Permutation D (D' ++ [(x, l)]) /\
+              Struct d (@update RN s p) D' /\ @batch_ch RN D' d = Some (h_crit (@update RN s p)).
+Proof. exact remove_sample_inv. Qed.
+Print Assumptions C15_remove_sample_tracks_the_batch_index.
 Print Assumptions C15_adds_track_the_batch_index.
 Print Assumptions C15_any_permitted_sequence_tracks_the_batch_index.
 Print Assumptions C15_fit_tracks_the_batch_index.
